@@ -73,6 +73,15 @@ def materialise(root, tree, mtimes=None, clean=True):
     os.utime(root, (t, t))
 
 
+def reset_mtimes(root, t=T0):
+    """give every entry below root (and root) the fixed mtime again: creating an ascmhl folder updates the
+    real mtime of its parent directory, which a later command would record as lastmodificationdate"""
+    for dp, dn, fn in os.walk(root, topdown=False):
+        for n in fn + dn:
+            os.utime(os.path.join(dp, n), (t, t))
+    os.utime(root, (t, t))
+
+
 def readback(root):
     """{relpath: bytes|None} of everything below root (real listing, independent of the seam)"""
     out = {}
